@@ -224,6 +224,7 @@ def c13(run):
     total = len(cases)
     cap_ = 500 if quick else 6000
     if total > cap_:
+        cases.sort(key=lambda c: json.dumps(c["in"], sort_keys=True))   # (parallel export order is not stable: the seed decides the sample)
         one = [c for c in cases if len(c["in"]["ans"]) == 1]
         rest = [c for c in cases if len(c["in"]["ans"]) > 1]
         cases = one + rnd.sample(rest, cap_ - len(one))
